@@ -527,24 +527,29 @@ impl CommandBuilder<'_> {
                 }
                 Err(e) => Err(CommandExecutionError::CannotRun(e)),
             },
-            ExecAction::Echo if self.options.replace.is_some() => {
-                // There is no initial argument to replace anything in, and
-                // nothing is appended.
-                println!();
-                Ok(CommandResult::Success)
-            }
             ExecAction::Echo => {
                 // The arguments as they are, byte for byte (they need not be UTF-8).
-                let mut line = self
-                    .extra_args
-                    .iter()
-                    .map(|arg| arg.as_encoded_bytes())
-                    .collect::<Vec<_>>()
-                    .join(&b' ');
+                // With -I there is no initial argument to replace anything in,
+                // and nothing is appended.
+                let mut line = if self.options.replace.is_some() {
+                    Vec::new()
+                } else {
+                    self.extra_args
+                        .iter()
+                        .map(|arg| arg.as_encoded_bytes())
+                        .collect::<Vec<_>>()
+                        .join(&b' ')
+                };
                 line.push(b'\n');
                 let mut stdout = io::stdout();
-                let _ = stdout.write_all(&line).and_then(|()| stdout.flush());
-                Ok(CommandResult::Success)
+                match stdout.write_all(&line).and_then(|()| stdout.flush()) {
+                    Ok(()) => Ok(CommandResult::Success),
+                    Err(e) => {
+                        // What an echo that cannot write does: it fails.
+                        let _ = writeln!(io::stderr(), "Error: echo: write error: {e}");
+                        Ok(CommandResult::Failure)
+                    }
+                }
             }
         }
     }
@@ -1134,9 +1139,11 @@ fn do_xargs(args: &[&str]) -> Result<CommandResult, XargsError> {
         Err(e) => match e.kind() {
             ErrorKind::DisplayHelp | ErrorKind::DisplayVersion => {
                 // The help/version text already has a newline, so use `print!` here, not `println!`
-                print!("{e}");
-
-                return Ok(CommandResult::Success);
+                let mut stdout = io::stdout();
+                return match write!(stdout, "{e}").and_then(|()| stdout.flush()) {
+                    Ok(()) => Ok(CommandResult::Success),
+                    Err(e) => Err(XargsError::from(format!("write error: {e}"))),
+                };
             }
             _ => return Err(XargsError::from(e.to_string())),
         },
